@@ -87,7 +87,7 @@ theorem lt_length_of_getElem? {α : Type} {l : List α} {i : Nat} {x : α} (h : 
 
 theorem declared_pair {p : Profile} {g : Graph} (hD : Declared p g) {w t : NodeId} {rw rt : Reg}
     (hw : g[w]? = some (.reg rw)) (ht : g[t]? = some (.reg rt)) (hm : rt.mode ≠ .noCache)
-    (h1 : w ∉ rt.invs) (h2 : rw.port ∉ rt.invs) : mayOverlap p w rw t rt = false := by
+    (h1 : w ∉ rt.invs) (h2 : rw.port ∉ rt.invs) : mayOverlap p g w rw t rt = false := by
   unfold Declared declaredB at hD
   rw [List.all_eq_true] at hD
   have := hD w (List.mem_range.mpr (lt_length_of_getElem? hw))
@@ -133,9 +133,52 @@ theorem stride_disjoint (base off k k' : Int) (len : Nat) (hoff : ¬ off.natAbs 
   generalize k' * off = y at *
   omega
 
-/-- `mayOverlap = false` is a sound: the concrete key ranges are disjoint -/
-theorem no_overlap {p : Profile} {w t : NodeId} {rw rt : Reg} {a a' : Int}
-    (h : mayOverlap p w rw t rt = false) (hk : KeyAddr p rw a) (hk' : KeyAddr p rt a')
+/-- an address the register can evaluate to lies in its hull -/
+theorem keyAddr_in_hull {p : Profile} {g : Graph} {r : Reg} {a lo hi : Int}
+    (hp : p.overflowChecks = true ∨ r.sel = none) (hk : KeyAddr p g r a)
+    (hh : hull g r = some (lo, hi)) : lo ≤ a ∧ a + r.len ≤ hi := by
+  unfold hull at hh
+  unfold KeyAddr at hk
+  cases hs : r.sel with
+  | none =>
+    rw [hs] at hh hk
+    dsimp only at hh hk
+    simp only [Option.some.injEq, Prod.mk.injEq] at hh
+    omega
+  | some so =>
+    obtain ⟨s, off⟩ := so
+    rw [hs] at hh hk
+    dsimp only at hh hk
+    have hoc : p.overflowChecks = true := by
+      rcases hp with h | h
+      · exact h
+      · rw [hs] at h; cases h
+    obtain ⟨k, rfl, hr⟩ := hk hoc
+    unfold InSelRange at hr
+    cases hsr : selRange g s with
+    | none => rw [hsr] at hh; cases hh
+    | some lh =>
+      obtain ⟨l, h⟩ := lh
+      rw [hsr] at hh hr
+      simp only [Option.some.injEq, Prod.mk.injEq] at hh
+      obtain ⟨hl, hu⟩ := hr
+      have hmm : min (l * off) (h * off) ≤ k * off ∧ k * off ≤ max (l * off) (h * off) := by
+        by_cases hoff : 0 ≤ off
+        · have h1 := Int.mul_le_mul_of_nonneg_right hl hoff
+          have h2 := Int.mul_le_mul_of_nonneg_right hu hoff
+          exact ⟨Int.le_trans (Int.min_le_left _ _) h1, Int.le_trans h2 (Int.le_max_right _ _)⟩
+        · have hoff' : off ≤ 0 := by omega
+          have h1 := Int.mul_le_mul_of_nonpos_right hl hoff'
+          have h2 := Int.mul_le_mul_of_nonpos_right hu hoff'
+          exact ⟨Int.le_trans (Int.min_le_right _ _) h2, Int.le_trans h1 (Int.le_max_left _ _)⟩
+      generalize l * off = x at *
+      generalize h * off = y at *
+      generalize k * off = z at *
+      omega
+
+/-- `mayOverlap = false` is sound: the concrete key ranges are disjoint -/
+theorem no_overlap {p : Profile} {g : Graph} {w t : NodeId} {rw rt : Reg} {a a' : Int}
+    (h : mayOverlap p g w rw t rt = false) (hk : KeyAddr p g rw a) (hk' : KeyAddr p g rt a')
     (hsame : w = t → rw = rt ∧ a ≠ a') : overlaps a rw.len a' rt.len = false := by
   unfold mayOverlap at h
   by_cases hwt : w = t
@@ -151,22 +194,45 @@ theorem no_overlap {p : Profile} {w t : NodeId} {rw rt : Reg} {a a' : Int}
       obtain ⟨s, off⟩ := so
       rw [hs] at hk hk' h
       simp only [Bool.or_eq_false_iff, decide_eq_false_iff_not, Bool.not_eq_false'] at h
-      obtain ⟨k, rfl⟩ := hk h.2
-      obtain ⟨k', rfl⟩ := hk' h.2
+      obtain ⟨k, rfl, _⟩ := hk h.2
+      obtain ⟨k', rfl, _⟩ := hk' h.2
       exact stride_disjoint _ _ _ _ _ h.1 hne
   · rw [if_neg hwt] at h
-    unfold KeyAddr at hk hk'
-    cases hs : rw.sel with
-    | some so => rw [hs] at h; simp at h
-    | none =>
-      cases hs' : rt.sel with
-      | some so => rw [hs, hs'] at h; simp at h
-      | none =>
-        rw [hs, hs'] at h
-        rw [hs] at hk
-        rw [hs'] at hk'
-        rw [hk, hk']
-        exact h
+    split at h
+    · cases h
+    rename_i hcond
+    have hpw : p.overflowChecks = true ∨ rw.sel = none := by
+      cases hoc : p.overflowChecks with
+      | true => exact Or.inl rfl
+      | false =>
+        right
+        cases hs : rw.sel with
+        | none => rfl
+        | some _ => simp [hoc, hs] at hcond
+    have hpt : p.overflowChecks = true ∨ rt.sel = none := by
+      cases hoc : p.overflowChecks with
+      | true => exact Or.inl rfl
+      | false =>
+        right
+        cases hs : rt.sel with
+        | none => rfl
+        | some _ => simp [hoc, hs] at hcond
+    unfold hullsMeet at h
+    cases hw : hull g rw with
+    | none => rw [hw] at h; simp at h
+    | some ab =>
+      cases ht : hull g rt with
+      | none => rw [hw, ht] at h; simp at h
+      | some cd =>
+        obtain ⟨x, y⟩ := ab
+        obtain ⟨c, d⟩ := cd
+        rw [hw, ht] at h
+        simp only [Bool.and_eq_false_iff, decide_eq_false_iff_not] at h
+        have h1 := keyAddr_in_hull hpw hk hw
+        have h2 := keyAddr_in_hull hpt hk' ht
+        unfold overlaps
+        simp only [Bool.and_eq_false_iff, decide_eq_false_iff_not]
+        omega
 
 /-! ### preservation of the invariant -/
 
@@ -203,7 +269,7 @@ theorem inv_clear {p : Profile} {g : Graph} {c : Store} {d : Dev} (hI : Inv p g 
 
 theorem inv_cache {p : Profile} {g : Graph} {c : Store} {d : Dev} (hI : Inv p g c d)
     {n : NodeId} {r : Reg} {a : Int} {bs : Bytes} (hn : g[n]? = some (.reg r))
-    (hm : r.mode ≠ .noCache) (hp : g[r.port]? = some .port) (hk : KeyAddr p r a)
+    (hm : r.mode ≠ .noCache) (hp : g[r.port]? = some .port) (hk : KeyAddr p g r a)
     (hd : d.peek a r.len = some bs) : Inv p g (c.cache n a r.len bs) d := by
   refine ⟨?_, ?_, ?_⟩
   · intro n' a' l' bs' h
@@ -229,7 +295,7 @@ theorem inv_cache {p : Profile} {g : Graph} {c : Store} {d : Dev} (hI : Inv p g 
 write through register `n` — this is where `Declared` is used -/
 theorem survivor_disjoint {p : Profile} {g : Graph} {c : Store} {d : Dev} (hD : Declared p g)
     (hI : Inv p g c d) {n : NodeId} {r : Reg} {a : Int} (hn : g[n]? = some (.reg r))
-    (hk : KeyAddr p r a) {t : NodeId} {a' : Int} {l' : Nat} {bs : Bytes}
+    (hk : KeyAddr p g r a) {t : NodeId} {a' : Int} {l' : Nat} {bs : Bytes}
     (h : ((c.invalidateBy n).invalidateBy r.port).get t a' l' = some bs)
     (hkey : t = n → a' ≠ a) :
     c.get t a' l' = some bs ∧ overlaps a r.len a' l' = false := by
@@ -257,7 +323,7 @@ theorem survivor_disjoint {p : Profile} {g : Graph} {c : Store} {d : Dev} (hD : 
 /-- **the write primitive preserves the invariant** (store/device level) -/
 theorem inv_write {p : Profile} {g : Graph} {c : Store} {d : Dev} (hD : Declared p g)
     (hI : Inv p g c d) {n : NodeId} {r : Reg} {a : Int} {buf : Bytes}
-    (hn : g[n]? = some (.reg r)) (hp : g[r.port]? = some .port) (hk : KeyAddr p r a)
+    (hn : g[n]? = some (.reg r)) (hp : g[r.port]? = some .port) (hk : KeyAddr p g r a)
     (hlen : buf.length = r.len) (hok : d.writeOk a buf.length = true) :
     Inv p g
       (if r.mode = .writeThrough then ((c.invalidateBy n).invalidateBy r.port).cache n a r.len buf
@@ -334,5 +400,67 @@ theorem inv_portWrite {p : Profile} {g : Graph} {c : Store} {d d' : Dev} {pn : N
   · intro n a l bs h
     rw [get_invalidateBy_portDeclared hP hI] at h
     cases h
+
+/-! ### lengths and selector ranges -/
+
+theorem peek_length {d : Dev} {a : Int} {l : Nat} {bs : Bytes} (h : d.peek a l = some bs) :
+    bs.length = l := by
+  unfold Dev.peek at h
+  split at h
+  · rename_i hr
+    cases h
+    unfold Dev.readOk inImage at hr
+    simp only [Bool.and_eq_true, decide_eq_true_eq] at hr
+    unfold slice
+    rw [List.length_take, List.length_drop]
+    omega
+  · cases h
+
+theorem fromEndian_lt (e : Endian) (bs : Bytes) : fromEndian e bs < 256 ^ bs.length := by
+  cases e with
+  | le => exact fromLE_lt bs
+  | be =>
+    have := fromLE_lt bs.reverse
+    rw [List.length_reverse] at this
+    exact this
+
+theorem intFromSlice_range {g : Graph} {n : NodeId} {rs : Reg} {e : Endian} {sg : Sign}
+    {bs : Bytes} {v : Int} (hn : g[n]? = some (.reg rs)) (hk : rs.kind = .int e sg)
+    (hl : bs.length = rs.len) (h : intFromSlice bs e sg = .ok v) : InSelRange g n v := by
+  unfold InSelRange selRange
+  rw [hn]
+  dsimp only
+  rw [hk]
+  have hu := fromEndian_lt e bs
+  unfold intFromSlice at h
+  rw [hl] at h hu
+  cases sg with
+  | unsigned =>
+    dsimp only
+    by_cases hlen : (rs.len == 1 || rs.len == 2 || rs.len == 4) = true
+    · rw [if_pos hlen]
+      dsimp only
+      simp only [Bool.or_eq_true, beq_iff_eq] at hlen
+      split at h
+      · dsimp only at h
+        cases h
+        unfold toI64
+        rcases hlen with (h1 | h1) | h1 <;> rw [h1] at hu ⊢ <;> simp only [] <;> omega
+      · cases h
+    · rw [if_neg hlen]
+      trivial
+  | signed =>
+    dsimp only
+    by_cases hlen : validIntLen rs.len = true
+    · rw [if_pos hlen]
+      dsimp only
+      rw [if_pos hlen] at h
+      dsimp only at h
+      unfold validIntLen at hlen
+      simp only [Bool.or_eq_true, beq_iff_eq] at hlen
+      rcases hlen with ((h1 | h1) | h1) | h1 <;> rw [h1] at hu h ⊢ <;>
+        split at h <;> cases h <;> omega
+    · rw [if_neg hlen]
+      trivial
 
 end CamVerif.C04
